@@ -269,6 +269,7 @@ def run(ctx):
         "coordinates are compared to 1e-9 relative (the library computes cos(k*pi/2) in floating point)",
         "aliasing pattern P1 is excluded from the exhaustive model by AliasGuard and checked by the witness run",
     ]
+    core.df_stage(ctx, df)   # mixed histories (spec/DF.tla): the clauses that come from this property's text
     return core.finish(ctx, rule=RULE, extra={"embeddings": [e.name for e in embs]})
 
 
